@@ -99,5 +99,14 @@ EVENTS = {c.__name__: c for c in [TypedEv, PlainEv, MyStart, TypedStop, AskEv, A
 EVENTS["Event"] = Event
 EVENTS["StopEvent"] = StopEvent
 EVENTS["StartEvent"] = StartEvent
-EXCS = {"ValueError": ValueError, "RuntimeError": RuntimeError, "KeyError": KeyError, "TimeoutError": TimeoutError,
+class DecoratedError(Exception):
+    """An exception whose text decorates its single argument (str(exc) != args[0]), like configparser.NoSectionError."""
+
+    def __str__(self) -> str:
+        return "step failed: " + super().__str__()
+
+
+import configparser as _configparser  # noqa: E402
+
+EXCS = {"DecoratedError": DecoratedError, "NoSectionError": _configparser.NoSectionError, "ValueError": ValueError, "RuntimeError": RuntimeError, "KeyError": KeyError, "TimeoutError": TimeoutError,
         "HarnessError": HarnessError, "Exception": Exception, "FileNotFoundError": FileNotFoundError, "ZeroDivisionError": ZeroDivisionError}
